@@ -19,8 +19,6 @@ from cv.tlc import run_tlc, must_ok
 
 LEVEL = "model_checking"
 VARCODE = {"a": 1, "b": 2, "c": 3}
-VARNAME = {"a": "c11s", "b": "bm_VRH", "c": "v"}
-SUFFIX = {"a": "gpa.txt", "b": "gpa.txt", "c": "ang3.txt"}
 
 
 @contextmanager
@@ -69,10 +67,20 @@ def main(ctx, replay=None):
             t0, p0 = (0.0, 0.0) if rng.random() < 0.5 else (300.0, 10.0)      # grids starting at exactly 0 K / 0 GPa half of the time
             tv = [t0 + 50.0 * x for x in ts]              # doubled units -> Kelvin (step 100 K per unit)
             pv = [p0 + 2.5 * x for x in ps]
+            # the abstract variables a, b, c are realised by output names of a real run; names that are prefixes of other names
+            # (bm_V / bm_VRH, G_V / G_VRH, v / v_p / v_s) are part of "each requested variable"
+            VARNAME = {"a": str(rng.choice(["c11s", "c12t", "c44s"])), "b": str(rng.choice(["bm_VRH", "bm_V", "G_V", "G_R"])), "c": str(rng.choice(["v", "v_s"]))}
+            SUFFIX = {k: ("ang3.txt" if n == "v" else "km_s.txt" if n.startswith("v_") else "gpa.txt") for k, n in VARNAME.items()}
             for v in set(vs):
                 write_table(d / f"{VARNAME[v]}_tp_{SUFFIX[v]}", tv, pv, lambda i, j, t, p, v=v: 1e6 * VARCODE[v] + 1e3 * (i + 1) + (j + 1))
-            # decoys: other variables' files must not be picked up
-            write_table(d / "zz_tp_gpa.txt", tv, pv, lambda i, j, t, p: -1.0)
+            # decoys: the other files of a real output directory must not be picked up
+            used = {VARNAME[v] for v in vs}
+            for name, suf in [(n, "gpa.txt") for n in ("bm_V", "bm_R", "bm_VRH", "G_V", "G_R", "G_VRH", "c11s", "c11t", "c12s", "c12t", "c44s", "c44t", "zz")] + \
+                             [("v", "ang3.txt"), ("v_p", "km_s.txt"), ("v_s", "km_s.txt")]:
+                if name not in used:
+                    write_table(d / f"{name}_tp_{suf}", tv, pv, lambda i, j, t, p: -1.0)
+                    if rng.random() < 0.3:
+                        write_table(d / f"{name}_tv_{suf}", tv, pv, lambda i, j, t, p: -2.0)
             want = (t0 + 50.0 * req) if mode == "T" else (p0 + 2.5 * req)
             args = ["-v", ",".join(VARNAME[v] for v in vs), "-T" if mode == "T" else "-P", repr(want)]
             case = {"mode": mode, "ts": ts, "ps": ps, "req": req, "vars": vs}
